@@ -498,6 +498,48 @@ func (c *Ctx) Cancel() {
 	c.finish(context.Canceled)
 }
 
+// timeoutCtx is what context.WithTimeout / WithDeadline of the code under test becomes inside a controlled
+// execution: a child of the parent created by the standard library (so that the parent's cancellation reaches it
+// synchronously) whose expiry is the step of a timer thread.
+type timeoutCtx struct {
+	context.Context
+	expired bool
+}
+
+func (t *timeoutCtx) Err() error {
+	if t.expired {
+		return context.DeadlineExceeded
+	}
+	return t.Context.Err()
+}
+
+func (t *timeoutCtx) Deadline() (time.Time, bool) {
+	return time.Date(2999, 1, 1, 0, 0, 0, 0, time.UTC), true
+}
+
+func (t *timeoutCtx) String() string { return "timeout-context" }
+
+func init() {
+	vsched.TimeoutCtxHook = func(parent context.Context) (context.Context, context.CancelFunc) {
+		inner, cancel := context.WithCancel(parent)
+		t := &timeoutCtx{Context: inner}
+		vsched.GoDaemon("timer", func() {
+			// enabled once the context has ended (the thread then just ends) or while the execution's timer
+			// budget lasts (the thread then lets the timeout expire)
+			vsched.Yield("timer", t, func() bool { return inner.Err() != nil || vsched.TimerMayFire() })
+			if inner.Err() == nil && vsched.TimerFire() {
+				t.expired = true
+				vsched.Release(vsched.CtxHB)
+				cancel()
+			}
+		})
+		return t, func() {
+			vsched.Release(vsched.CtxHB)
+			cancel()
+		}
+	}
+}
+
 // Expire lets the context's deadline pass (a scheduling point).
 func (c *Ctx) Expire() {
 	vsched.Yield("ctx-expire", c, vsched.Always)
